@@ -138,6 +138,10 @@ def main():
     # in an eighth of the cases the candidate is checked with the leaf type Tuple[int, int] and every leaf of x is the tuple (1, 2): values
     # that JAX would treat as NODES are leaves here, so the candidate's structure is still that of x (the names were bound with int leaves)
     TL = ["tuple", ["int", "int"]]
+    # the candidate value (1, 2) is ONE leaf under Tuple[int, int] (structure *), whatever JAX would make of the raw tuple
+    for (t0, form0) in ((["t", [["i", 0], ["i", 0]]], "T ..."), (["t", [["i", 0], ["i", 0]]], "T"), (["i", 0], "T ..."), (["t", [["i", 0], ["i", 0]]], "... T"), (["N", "P", [["i", 0], ["i", 0]]], "T ...")):
+        cases.append((t0, ["i", 0], form0, ["i", 0]))
+        sessions.append({"nocontext": False, "steps": [tstep("T", t0), tstep("S", ["i", 0]), tstep(form0, ["t", [["i", 1], ["i", 2]]], TL)]})
     for k, (t, s, form, x) in enumerate(cases):
         if k >= ncorp and k % 8 == 0 and x != ["n"]:
             sessions[k]["steps"][2] = tstep(form, T.fill(x, lambda: ["t", [["i", 1], ["i", 2]]]), TL)
